@@ -31,7 +31,7 @@ def jsonable(x, depth=0):
     """Best-effort conversion of a case/detail into JSON-compatible data."""
     import fractions
 
-    if depth > 8:
+    if depth > 40:
         return repr(x)
     if x is None or isinstance(x, (bool, int, str)):
         return x
